@@ -39,7 +39,8 @@ REQUIRED_BRANCHES = ['filter_increasing_nu', 'filter_decreasing_nu', 'sed_increa
                      'package_cube_memmap_off', 'package_unit_mJy', 'package_unit_Jy', 'package_unit_cgs',
                      'grid_unit_Hz', 'grid_unit_GHz', 'grid_unit_THz', 'filter_nu_unit_Hz', 'filter_nu_unit_GHz',
                      'filter_nu_unit_THz', 'file_wav_increasing', 'file_wav_decreasing',
-                     'file_asymmetric', 'hist_normalize', 'hist_assign_response', 'hist_assign_both', 'hist_grid']
+                     'file_asymmetric', 'notch_filter', 'rebinned_interior_zero', 'package_cube_interior_zero', 'package_files_interior_zero',
+                     'hist_normalize', 'hist_assign_response', 'hist_assign_both', 'hist_grid']
 ASSUMPTIONS = ['IEEE rounding is not modelled: responses compared within 1e-9 of sum|R_i|, fluxes within 1e-9 of '
                'sum|F_i R_i|, variances within 4e-9 relative',
                'filter frequencies strictly monotonic, SED frequencies strictly monotonic, all values finite '
@@ -71,8 +72,15 @@ def _strict(xs):
     return out
 
 
-def gen_filter(rng, mode, n=None, zero_edges=None, order=None, normalize=None, nu_unit=None, allow_zero=False):
+def gen_filter(rng, mode, n=None, zero_edges=None, order=None, normalize=None, nu_unit=None, allow_zero=False,
+               notch=None):
     n = n or rng.choice(SIZES_F)
+    if notch is None:
+        notch = n >= 8 and rng.random() < 0.2
+    if notch and n < 8:
+        n = rng.choice([8, 12, 20, 30, 45])
+    if notch == 'wide':
+        n = rng.choice([12, 20, 30])
     steps = [rng.choice([0.05, 0.2, 1., 1., 1., 3.]) * rng.uniform(0.3, 1.) for _ in range(n - 1)]
     tot = sum(steps)
     cum = [0.]
@@ -117,6 +125,19 @@ def gen_filter(rng, mode, n=None, zero_edges=None, order=None, normalize=None, n
         rs[-1] = 0.
     elif zero_edges:
         rs[rng.randrange(2)] = 0.
+    if notch and n >= 6:
+        # double-peaked / notch curves: 1-3 stretches of exactly zero response in the middle (several nodes wide, so
+        # that whole SED bins fall inside them), sometimes a zero stretch at an edge as well
+        for _ in range(1 if notch == 'wide' else rng.randint(1, 3)):
+            ln = rng.randint(max(2, n // 3), max(2, n // 2)) if notch == 'wide' else rng.randint(2, max(2, n // 3))
+            st = rng.randint(2, max(2, n - 2 - ln))
+            for k in range(st, min(st + ln, n - 2)):
+                rs[k] = 0.
+        if rng.random() < 0.3:
+            for k in range(rng.randint(2, 3)):
+                rs[k if rng.random() < 0.5 else n - 1 - k] = 0.
+        rs[1] = rs[1] or 0.4
+        rs[n - 2] = rs[n - 2] or 0.6
     if not any(r > 0 for r in rs):
         rs[len(rs) // 2] = 0.5
     if mode == 'file' and n >= 4 and rs == rs[::-1]:
@@ -191,6 +212,9 @@ def gen_grid(rng, kind, nodes, exact, m=None, order=None):
         elif kind == 'cover_fine':
             m = m or rng.randint(20, 80)
             lo, hi = flo - w * rng.uniform(0.05, 2.), fhi + w * rng.uniform(0.05, 2.)
+        elif kind == 'cover_tight':
+            m = m or rng.randint(40, 80)
+            lo, hi = flo - w * rng.uniform(0.05, 0.3), fhi + w * rng.uniform(0.05, 0.3)
         elif kind == 'partial_low':
             m = m or rng.randint(2, 80)
             lo, hi = flo - w * rng.uniform(0.1, 1.), flo + w * rng.uniform(0.1, 0.9)
@@ -235,11 +259,11 @@ def respace(rng, wav, how):
     return out if all(out[k] < out[k + 1] for k in range(n - 1)) else list(wav)
 
 
-def gen_package(rng, nodes, hetero=None, fmt=None):
+def gen_package(rng, nodes, hetero=None, fmt=None, fine=False):
     """small per-file package whose wavelength grid(s) overlap the filter.  `hetero`: consecutive models
     (in file-listing order) get grids with the same length and end points but different interior points,
     and sometimes a grid of another length, so that the filters have to be re-binned between models"""
-    kind = rng.choice(GRID_KINDS[:-1])
+    kind = 'cover_tight' if fine else rng.choice(GRID_KINDS[:-1])
     if fmt is None:
         fmt = 'cube' if rng.random() < 0.25 else 'files'
     if fmt == 'cube':
@@ -247,6 +271,8 @@ def gen_package(rng, nodes, hetero=None, fmt=None):
     if hetero is None:
         hetero = rng.random() < 0.4
     m = rng.randint(4, 25) if hetero else (rng.randint(2, 40) if kind != 'cover_coarse' else None)
+    if fine:
+        m = rng.randint(40, 80)             # narrow bins: some lie entirely inside a zero stretch of the filter
     nus = gen_grid(rng, kind, nodes, False, m=m, order='inc')
     wav = _strict(sorted(float('%.7g' % (C_UM_HZ / v)) for v in nus))
     if len(wav) < 2:
@@ -326,6 +352,17 @@ DIRECTED = [
 ]
 
 
+# notch / double-peaked filters (zero stretches in the middle) on fine grids, through every stage
+DIRECTED_NOTCH = [
+    ('nu', 'inc', False, True, 'cover_fine', 'inc', 'cube'),
+    ('nu', 'dec', True, False, 'cover_fine', 'dec', 'cube'),
+    ('wav', 'inc', False, True, 'cover_fine', 'inc', 'cube'),
+    ('file', 'dec', False, False, 'cover_fine', 'inc', 'cube'),
+    ('file', 'inc', True, True, 'cover_fine', 'dec', True),
+    ('nu', 'inc', False, False, 'cover_fine', 'inc', True),
+    ('wav', 'dec', False, True, 'cover_fine', 'dec', 'hetero'),
+    ('nu', 'dec', False, True, 'partial_low', 'inc', 'cube'),
+]
 HIST_OPS = ['normalize', 'assign_response', 'assign_response', 'assign_both', 'grid']
 HIST_DIRECTED = [['normalize'], ['assign_response', 'normalize'], ['assign_both'], ['grid', 'assign_response'], [],
                  ['normalize', 'grid'], ['assign_both', 'normalize', 'assign_response']]
@@ -352,7 +389,7 @@ def gen_step(rng, op, flt, nodes):
     return dict(op=op)
 
 
-def gen_case(rng, directed=None, small=False, hist=None):
+def gen_case(rng, directed=None, small=False, hist=None, notch=None):
     if directed:
         mode, forder, zero, norm, gkind, gorder, with_pkg = directed
         n = rng.choice([2, 3, 5, 9]) if small else None
@@ -364,7 +401,8 @@ def gen_case(rng, directed=None, small=False, hist=None):
         n = None
     exact = mode == 'nu' and gkind in EDGE_KINDS      # edges placed exactly on nodes need integer Hz values
     flt = gen_filter(rng, mode, n=n, zero_edges=zero, order=forder, normalize=norm,
-                     nu_unit='Hz' if exact else None, allow_zero=not directed)
+                     nu_unit='Hz' if exact else None, allow_zero=not directed,
+                     notch=notch if notch is not None else (False if directed else None))
     nodes = filter_nu_approx(flt)
     grid = gen_grid(rng, gkind, nodes, exact, order=gorder)
     grid_unit = 'Hz' if exact else rng.choice(['Hz', 'Hz', 'GHz', 'THz'])
@@ -376,7 +414,8 @@ def gen_case(rng, directed=None, small=False, hist=None):
     case['history'] = [gen_step(rng, op, flt, nodes) for op in hist]
     if with_pkg:
         case['package'] = gen_package(rng, nodes, hetero=True if with_pkg == 'hetero' else (False if directed else None),
-                                      fmt='cube' if with_pkg == 'cube' else ('files' if directed else None))
+                                      fmt='cube' if with_pkg == 'cube' else ('files' if directed else None),
+                                      fine=bool(notch))
     return case
 
 
@@ -388,6 +427,9 @@ def gen_cases(seed, tier):
             yield gen_case(rng, DIRECTED[i], hist=HIST_DIRECTED[i % len(HIST_DIRECTED)])
         elif i < 2 * len(DIRECTED):
             yield gen_case(rng, DIRECTED[i - len(DIRECTED)], small=True, hist=HIST_DIRECTED[(i + 3) % len(HIST_DIRECTED)])
+        elif i < 2 * len(DIRECTED) + len(DIRECTED_NOTCH):
+            k = i - 2 * len(DIRECTED)
+            yield gen_case(rng, DIRECTED_NOTCH[k], hist=[[], ['normalize'], ['grid']][k % 3], notch='wide')
         else:
             yield gen_case(rng)
 
@@ -549,10 +591,18 @@ def grid_branches(nus_held, grid, flt):
         b.add('filter_nu_unit_' + flt.get('nu_unit', 'Hz'))
     if not any(r > 0 for r in flt['r']):
         b.add('all_zero_filter')
+    elif interior_zero(flt['r']):
+        b.add('notch_filter')
     return b
 
 
-def check_rebin(f, cur, grid_in, gunit, drv, label):
+def interior_zero(rs):
+    """a zero response between two non-zero ones"""
+    nz = [i for i, r in enumerate(rs) if r != 0]
+    return bool(nz) and any(rs[i] == 0 for i in range(nz[0], nz[-1]))
+
+
+def check_rebin(f, cur, grid_in, gunit, drv, label, info=None):
     """Filter.rebin of the object `f` on one grid against the model for the curve `cur` (frequencies in Hz in held
     order, raw responses, normalised or not) the object holds now.  Returns (failing CaseResult or None, sum R, scale)"""
     grid = to_hz(grid_in, gunit)           # the float Hz values rebin works with (nu_new.to(u.Hz).value)
@@ -566,6 +616,8 @@ def check_rebin(f, cur, grid_in, gunit, drv, label):
     model = t.rats()
     total = t.rat()
     scale = float(sum(abs(m) for m in model))
+    if info is not None and interior_zero(model):
+        info.add('rebinned_interior_zero')
     bad = None
     if len(model) != len(resp):
         bad = 'length: impl %d model %d' % (len(resp), len(model))
@@ -626,7 +678,7 @@ def run_case(case):
         if why:
             return CaseResult(False, violates=True, branches=sorted(branches), detail=why)
         cur = dict(mode=flt['mode'], nus=nus_held, r=list(flt['r']), normalize=flt['normalize'])
-        bad, total, scale = check_rebin(f, cur, grid_in, gunit, drv, 'fresh filter')
+        bad, total, scale = check_rebin(f, cur, grid_in, gunit, drv, 'fresh filter', branches)
         if bad is not None:
             bad.branches = sorted(branches)
             return bad
@@ -648,7 +700,7 @@ def run_case(case):
             done.append(step['op'])
             branches.add('hist_' + step['op'])
             bad, total2, _ = check_rebin(f, cur, grid_in, gunit, drv,
-                                         'same Filter object after rebin and then %s' % ' -> '.join(done))
+                                         'same Filter object after rebin and then %s' % ' -> '.join(done), branches)
             if bad is not None:
                 bad.branches = sorted(branches)
                 return bad
@@ -663,6 +715,12 @@ def run_case(case):
             branches.add('package_cube_memmap_%s' % ('on' if pkg.get('memmap') else 'off') if pkg.get('fmt') == 'cube'
                          else 'package_files')
             branches.add('package_unit_' + pkg.get('unit', 'mJy'))
+            if interior_zero(cur['r']):
+                # does the filter, re-binned on the package grid, have zero bins between non-zero ones?
+                nu0 = to_hz_wav(package_grids(pkg)[0])
+                t = drv.ask('c06.rebin %s %s' % (filter_line(cur, cur['nus']), rats(sorted(nu0))))
+                if interior_zero(t.rats()):
+                    branches.add('package_%s_interior_zero' % ('cube' if pkg.get('fmt') == 'cube' else 'files'))
             grids = package_grids(pkg)
             if any(sorted(grids[k]) != sorted(grids[k + 1]) for k in range(len(grids) - 1)):
                 branches.add('package_grids_differ')
@@ -677,6 +735,11 @@ def run_case(case):
                           sample=sample)
     finally:
         shutil.rmtree(d, ignore_errors=True)
+
+
+def to_hz_wav(wav_um):
+    from astropy import units as u
+    return [float(v) for v in (np.array(wav_um, dtype=float) * u.micron).to(u.Hz, equivalencies=u.spectral()).value]
 
 
 def in_mjy(vals, nus, unit):
